@@ -3,7 +3,7 @@
    InterpreterImpl::isTrue, repaired variant) for every element tree, every datamodel state and every
    queue content.  That the implementation follows this model is the correspondence of the check;
    memory safety of the C++ is outside the model. *)
-From V Require Import Base NameMatch Chart Exec Large LargeLemmas TraceLemmas ExecLemmas.
+From V Require Import Base NameMatch Chart Exec Large LargeLemmas TraceLemmas ExecLemmas ExecFaults ExecFaultsLemmas.
 
 (* an element without children (raise, send, log, assign) that fails enqueues exactly one platform error
    event; one that succeeds enqueues none *)
@@ -53,3 +53,86 @@ Theorem finished_is_absorbing :
   forall v xv c l x, l_fin l = true -> large_step v xv c l x = (l, x, RC_FINISHED).
 Proof. exact large_step_finished_absorbing. Qed.
 Print Assumptions finished_is_absorbing.
+
+(* C07, evaluation sites outside Exec.v -- text to append to coq/props/Properties_C07.v.
+   1. extend the import line of Properties_C07.v to
+        From V Require Import Base NameMatch Chart Exec Large LargeLemmas TraceLemmas ExecLemmas ExecFaults ExecFaultsLemmas.
+   2. append everything below.  All twelve theorems print "Closed under the global context"
+      (checked with coqc -R /verif/coq V on a copy, Coq 8.16.1). *)
+
+(* ---- evaluation sites outside Exec.v (ExecFaults.v): <finalize>, <donedata>, <param>/<content expr> of <send>,
+   undeliverable events (immediately and from the timer thread), <invoke> arguments, setEvent at the dequeues.
+   [fx_fixed] is the code with the C07 repairs, [fx_pinned] the code before them. *)
+
+(* no action of the repaired interpreter lets an exception out of step() or out of the timer thread: for every
+   environment, every block / expression result / target, every state whose queues hold no unevaluated expression *)
+Theorem fault_sites_never_escape : forall env inst a st,
+  no_lazy st -> fst (do_action fx_fixed env inst a st) <> Escaped.
+Proof. exact do_action_never_escapes. Qed.
+Print Assumptions fault_sites_never_escape.
+
+(* ... the invariant holds initially and is kept, so it holds for every sequence of actions of any length *)
+Theorem fault_runs_never_escape : forall env inst l,
+  fst (run fx_fixed env inst l fstate0) <> Escaped /\ no_lazy (snd (run fx_fixed env inst l fstate0)).
+Proof. exact runs_from_start. Qed.
+Print Assumptions fault_runs_never_escape.
+
+(* every failing evaluation / undeliverable event / failing block ends as (at least) one more platform error event
+   in the internal queue, and the action reports it *)
+Theorem fault_site_failure_raises_error : forall env inst a st,
+  no_lazy st -> fails env inst a st = true ->
+  fst (do_action fx_fixed env inst a st) = ErrRaised /\
+  (n_err st < n_err (snd (do_action fx_fixed env inst a st)))%nat.
+Proof. exact do_action_failure_raises. Qed.
+Print Assumptions fault_site_failure_raises_error.
+
+(* per site *)
+Theorem finalize_never_escapes : forall env inst b st,
+  no_lazy st -> fst (do_action fx_fixed env inst (ADequeueExt (Some b)) st) <> Escaped.
+Proof. exact finalize_fixed. Qed.
+Print Assumptions finalize_never_escapes.
+
+Theorem send_content_never_escapes : forall env inst name t params content fin st,
+  no_lazy st ->
+  fst (run fx_fixed env inst [ASend name t params content; ADequeueExt fin] st) <> Escaped /\
+  fst (run fx_fixed env inst [ASend name t params content; ADequeueInt] st) <> Escaped.
+Proof. exact send_content_fixed. Qed.
+Print Assumptions send_content_never_escapes.
+
+Theorem donedata_never_escapes : forall env inst sid params content st,
+  no_lazy st -> fst (run fx_fixed env inst [ADone sid params content; ADequeueInt] st) <> Escaped.
+Proof. exact donedata_fixed. Qed.
+Print Assumptions donedata_never_escapes.
+
+Theorem timer_never_escapes : forall env inst k st,
+  no_lazy st -> fst (do_action fx_fixed env inst (ATimer k) st) <> Escaped.
+Proof. exact timer_fixed. Qed.
+Print Assumptions timer_never_escapes.
+
+(* the pinned behaviour, one witness per confirmed defect *)
+Theorem finalize_never_escapes_refuted : exists env inst l, fst (run fx_pinned env inst l fstate0) = Escaped /\
+  l = [ASend ev_x TSelf [] None; ADequeueExt (Some bad_assign)].
+Proof. exact finalize_pinned_escapes. Qed.
+Print Assumptions finalize_never_escapes_refuted.
+
+Theorem send_content_never_escapes_refuted : exists env inst c,
+  fst (do_action fx_pinned env inst (ASend ev_x TSelf [] (Some c)) fstate0) = Ok /\
+  n_err (snd (do_action fx_pinned env inst (ASend ev_x TSelf [] (Some c)) fstate0)) = O /\
+  fst (run fx_pinned env inst [ASend ev_x TSelf [] (Some c); ADequeueExt None] fstate0) = Escaped.
+Proof. exact send_content_pinned_escapes. Qed.
+Print Assumptions send_content_never_escapes_refuted.
+
+Theorem donedata_never_escapes_refuted : exists env inst sid c,
+  fst (run fx_pinned env inst [ADone sid [] (Some c); ADequeueInt] fstate0) = Escaped.
+Proof. exact donedata_pinned_escapes. Qed.
+Print Assumptions donedata_never_escapes_refuted.
+
+Theorem timer_never_escapes_refuted : exists env inst t,
+  fst (run fx_pinned env inst [ADelayedSend ev_x t [] None; ATimer 0] fstate0) = Escaped.
+Proof. exact timer_pinned_escapes. Qed.
+Print Assumptions timer_never_escapes_refuted.
+
+Theorem invoke_failure_raises_error_refuted : exists env inst a st,
+  no_lazy st /\ fails env inst a st = true /\ do_action fx_pinned env inst a st = (Ok, st).
+Proof. exact invoke_pinned_loses_error. Qed.
+Print Assumptions invoke_failure_raises_error_refuted.
